@@ -421,7 +421,20 @@ impl Parser {
             }
         };
 
+        let mut tokens = tokens.peekable();
         let body = match tokens.next() {
+            // `|lex| -> Type { .. }`: the body is pasted into the generated code, which has no
+            // place for a declared return type (`|lex| -1` is a body)
+            Some(TokenTree::Punct(punct))
+                if punct.as_char() == '-'
+                    && matches!(tokens.peek(), Some(TokenTree::Punct(next)) if next.as_char() == '>') =>
+            {
+                self.err(
+                    "Inline callbacks cannot declare a return type: annotate the value inside the body or use a function",
+                    span,
+                );
+                return None;
+            }
             Some(first) => {
                 let rest = tokens.collect::<TokenStream>();
 
